@@ -161,6 +161,13 @@ class Program:
                 tree = ast.parse(src, filename=str(p))
             except (SyntaxError, UnicodeDecodeError) as e:
                 raise AnalysisError(f"cannot parse {rel}: {e}") from e
+            if os.environ.get("HMSLINT_NO_NORMALIZE") != "1":
+                from .normalize import normalize_module
+
+                try:
+                    tree = normalize_module(tree)
+                except RecursionError as e:  # pragma: no cover
+                    raise AnalysisError(f"normalisation of {rel} failed: {e}") from e
             h.update(str(rel).encode())
             h.update(src.encode())
             m = Module(name=name, path=p, relpath=str(rel), source=src, tree=tree)
